@@ -153,15 +153,25 @@ func (P *Program) inlineBoolHelper(call *ssa.Call, k int, depth int) *formula {
 		return nil
 	}
 	var ret *ssa.Return
-	n := 0
+	n, nFalse := 0, 0
 	allInstrs(callee, func(b *ssa.BasicBlock, ins ssa.Instruction) {
 		if r, ok := ins.(*ssa.Return); ok {
+			// early `return <zero>, false` exits of a (value, ok) helper: the flag is true only on the other return
+			if k < len(r.Results) {
+				if cv, isC := constBool(r.Results[k]); isC && !cv {
+					nFalse++
+					return
+				}
+			}
 			ret = r
 			n++
 		}
 	})
 	if n != 1 || k >= len(ret.Results) {
 		return nil
+	}
+	if nFalse > 0 {
+		return P.inlineGuardedReturn(callee, call, ret, k, depth)
 	}
 	rv := ret.Results[k]
 	if _, isC := rv.(*ssa.Const); isC {
@@ -180,6 +190,43 @@ func (P *Program) inlineBoolHelper(call *ssa.Call, k int, depth int) *formula {
 	var f *formula
 	pins := map[*ssa.Function]ssa.CallInstruction{callee: call}
 	P.PinnedAll(pins, func() { f = P.condFormula(rv, depth+1) })
+	f.withCtx(pins)
+	return f
+}
+
+// inlineGuardedReturn: bool result #k of the helper is false on every return but ret: at the call it is
+// (path condition of ret) && (the value returned there), read in the calling context of this call.
+func (P *Program) inlineGuardedReturn(callee *ssa.Function, call *ssa.Call, ret *ssa.Return, k int, depth int) *formula {
+	if callee.Parent() != nil || len(callee.AnonFuncs) > 0 {
+		return nil
+	}
+	if P.inlineBusy == nil {
+		P.inlineBusy = map[*ssa.Function]bool{}
+	}
+	P.inlineBusy[callee] = true
+	defer delete(P.inlineBusy, callee)
+	pins := map[*ssa.Function]ssa.CallInstruction{callee: call}
+	f := &formula{op: "and"}
+	P.PinnedAll(pins, func() {
+		for _, l := range P.BlockGuards(ret.Block()) {
+			pos := l.Pos
+			l.Pos = true
+			leaf := &formula{op: "leaf", lit: l}
+			if !pos {
+				leaf = &formula{op: "not", sub: []*formula{leaf}}
+			}
+			f.sub = append(f.sub, leaf)
+		}
+		if cv, isC := constBool(ret.Results[k]); !(isC && cv) {
+			f.sub = append(f.sub, P.condFormula(ret.Results[k], depth+1))
+		}
+	})
+	if len(f.sub) == 0 {
+		return nil
+	}
+	if len(f.sub) == 1 {
+		f = f.sub[0]
+	}
 	f.withCtx(pins)
 	return f
 }
